@@ -923,7 +923,7 @@ func c04IsRangeOf(s *fw.GxSym, v ssa.Value, loc string) bool {
 }
 
 func c04Leafs(r *fw.Run, p *fw.Program) {
-	ru := r.Rule("C04.leafs", "(*D).FillGaps: the list handed to ranges.Gaps holds exactly iv.Range of every non-compound value reached by a root-limited walk of d.Value (this buffer root only): the filter withholds nothing but compounds, the callbacks never cut the walk short, each leaf is stored unconditionally in the next slot (or appended); every returned gap becomes a child Value{Range: gap, V: BitBuf{Actual: bitiox.Range(d.bitBuf, gap.Start, gap.Len), Flags: FlagGap}, RootReader: d.bitBuf} with an index-unique name; bitiox.Range sections (start, len) in that order", 21)
+	ru := r.Rule("C04.leafs", "(*D).FillGaps: the list handed to ranges.Gaps holds exactly iv.Range of every non-compound value reached by a root-limited walk of d.Value (this buffer root only): the filter withholds nothing but compounds, the callbacks never cut the walk short, each leaf is stored unconditionally in the next slot (or appended); every returned gap becomes a child Value{Range: gap, V: BitBuf{Actual: bitiox.Range(d.bitBuf, gap.Start, gap.Len), Flags: FlagGap}, RootReader: d.bitBuf} with an index-unique name; each gap has its own newly allocated Value and BitBuf; bitiox.Range sections (start, len) in that order", 23)
 	fn := p.Fn("(*pkg/decode.D).FillGaps")
 	gaps := p.Fn("pkg/ranges.Gaps")
 	bxRange := p.Fn("internal/bitiox.Range")
@@ -1322,11 +1322,16 @@ func c04Leafs(r *fw.Run, p *fw.Program) {
 	}
 	ru.Check(add.Call.Args[0] == ssa.Value(d) && loop[add.Block()] && sec.Block().Dominates(add.Block()) && !skips,
 		"FillGaps:gap-add", apos, "every gap is added to d unconditionally", "d.AddChild is not executed for every gap of the loop")
-	vf, _, ok := fw.GxLitFields(add.Call.Args[1])
+	vf, vcell, ok := fw.GxLitFields(add.Call.Args[1])
 	if !ok {
 		ru.Undecided("FillGaps:gap-value", apos, "the added gap value is not a Value literal")
 		return
 	}
+	// one Value per gap: the cell is allocated by the iteration that links it (a cell allocated
+	// before the loop is linked once per gap and every link shows the fields of the last gap)
+	fresh := func(c *ssa.Alloc) bool { return c != nil && c.Heap && loop[c.Block()] }
+	ru.Check(fresh(vcell), "FillGaps:gap-value:fresh", apos, "every gap gets a newly allocated Value",
+		"the Value linked for a gap is not allocated inside the gap loop: all gap fields are one and the same value, holding the range and bits of the last gap")
 	rv := vf["Range"]
 	ru.Check(rv != nil && c04IsRangeOf(s, rv, gapLoc) || rv == nil && vf["Range.Start"] != nil && vf["Range.Len"] != nil && s.Int(vf["Range.Start"]).Equal(fw.PAtom(gapLoc+".Start")) && s.Int(vf["Range.Len"]).Equal(fw.PAtom(gapLoc+".Len")), "FillGaps:gap-value:range", apos, "Range: gap", "gap value's Range is not the gap the bits were cut for")
 	ru.Check(vf["RootReader"] != nil && c04FieldLoad(vf["RootReader"], d, "bitBuf"), "FillGaps:gap-value:rootreader", apos, "RootReader: d.bitBuf", "gap value's RootReader is not the buffer its range refers to (d.bitBuf)")
@@ -1356,6 +1361,8 @@ func c04Leafs(r *fw.Run, p *fw.Program) {
 		ru.Fail("FillGaps:gap-value:kind", apos, "gap value is not a *scalar.BitBuf literal")
 		return
 	}
+	ru.Check(fresh(bcell), "FillGaps:gap-value:fresh-bits", apos, "every gap gets a newly allocated scalar.BitBuf",
+		"the scalar.BitBuf of a gap value is not allocated inside the gap loop: all gap values point at one struct, so after the loop every gap's Actual is the reader of the last gap (ranges stay right, tovalue/tojson of a gap shows other bits)")
 	act, _ := bf["Actual"].(*ssa.Extract)
 	ru.Check(act != nil && act.Tuple == ssa.Value(sec) && act.Index == 0, "FillGaps:gap-value:actual", apos, "Actual is the reader cut for this gap", "gap value's bits (Actual) are not the reader cut by bitiox.Range for this gap")
 	flagOK := false
